@@ -1,7 +1,8 @@
 #!/bin/bash
+ROOT=$(cd "$(dirname "$0")/.." && pwd)
 # run_benign.sh [tier] : every check against every BENIGN variant (correct code with new synchronisation):
 # all of them must exit 0.  Scratch worktrees only.
-tier=${1:-quick}; cd /verif; fail=0
+tier=${1:-quick}; cd "$ROOT"; fail=0
 for p in benign/*.patch; do
   for prop in C14 C19 C13 C11; do
     r=$(tools/try_mutant.sh $p $prop $tier 2>&1 | tail -1); echo "$r"
